@@ -255,6 +255,39 @@ theorem C07_fact_overlap :
     Thanos.Facts.storesOverlapsClosedInterval = "b.meta.MinTime <= maxt && mint < b.meta.MaxTime"
     ∧ (Thanos.Facts.storesGetForConds.drop 2).take 2 = ["b.meta.MaxTime <= mint", "b.meta.MinTime > maxt"] := by decide
 
+/-! ### external labels replaced at run time: every call reads the current set -/
+
+/-- after `SetExtLset` each of the three calls answers as a store created with the new external labels would -/
+theorem series_reads_current_ext (db : Block) (ext : Labels) (r : Req) :
+    ((TStore.new db).setExt ext).series r = tsdbSeries { db with ext := ext } r := rfl
+
+theorem labelNames_reads_current_ext (db : Block) (ext : Labels) (r : Req) :
+    ((TStore.new db).setExt ext).labelNames r = tsdbLabelNames { db with ext := ext } r := rfl
+
+theorem labelValues_reads_current_ext (db : Block) (ext : Labels) (r : Req) (l : Nat) :
+    ((TStore.new db).setExt ext).labelValues r l = tsdbLabelValues { db with ext := ext } r l := rfl
+
+/-- C07 for the TSDB store in every state: after any sequence of external-label updates the label calls cover
+    what Series returns (the current external labels must be a legal label set) -/
+theorem C07_tsdb_after_updates (db : Block) (updates : List Labels) (r : Req) (es : List Entry)
+    (wf : WFBlock (updates.foldl TStore.setExt (TStore.new db)).view)
+    (h : (updates.foldl TStore.setExt (TStore.new db)).series r = .ok es) :
+    ∀ e ∈ es, ∀ l ∈ e.1,
+      l.1 ∈ (updates.foldl TStore.setExt (TStore.new db)).labelNames r ∧
+      l.2 ∈ (updates.foldl TStore.setExt (TStore.new db)).labelValues r l.1 := by
+  intro e he l hl
+  exact ⟨C07_names_tsdb _ r es wf h e he l hl, C07_values_tsdb _ r es wf h e he l hl⟩
+
+/-- regenerated facts: `TSDBStore` has no field that could hold a derived copy of the external labels besides
+    `extLsetAsLabelSets`, and the three calls read the current set (through `getExtLset` / the field) -/
+theorem C07_fact_single_ext_copy :
+    Thanos.Facts.storesTSDBStoreFields =
+      ["logger", "db", "component", "buffers", "maxBytesPerFrame", "matcherCache", "extLsetAsLabelSets",
+       "startStoreFilterUpdate", "storeFilter", "mtx", "close", "storepb.UnimplementedStoreServer"]
+    ∧ Thanos.Facts.storesTSDBStoreExtReads =
+      ["Series: getExtLset x1, extLsetAsLabelSets x1", "LabelNames: getExtLset x2, extLsetAsLabelSets x0",
+       "LabelValues: getExtLset x2, extLsetAsLabelSets x0"] := by decide
+
 /-! ### the proxy in front of several stores -/
 
 theorem mem_proxyNames (clients : List Client) (r : Req) (c : Client) (n : Nat)
